@@ -256,7 +256,34 @@ def block_enabled(cfg, hist):
     return ev
 
 
+# integer TYPES of the request sizes x positions just below / across / beyond 2**31 and 2**32 (one big skip
+# gets there cheaply); a third element of an event names the type the size is presented in
+SIZE_TYPES = {"py": int, "int32": np.int32, "int64": np.int64, "uint32": np.uint32}
+INT_SKIPS = (2 ** 31 - 10, 2 ** 31 + 5, 2 ** 32 - 4, 2 ** 32 + 3)
+INT_GENS = ((20, "py"), (20, "int32"), (20, "int64"), (20, "uint32"), (7, "int32"))
+INT_FDTS_L = ((5.0, 3.25e-8, 1, None), (100.0, 1e-9, 8, 3))
+
+
+def int_events():
+    ev = [("generate", n, t) for n, t in INT_GENS]
+    for n in INT_SKIPS:
+        for t, T in SIZE_TYPES.items():
+            if t == "py" or n <= np.iinfo(T).max:
+                ev.append(("skip", n, t))
+    return ev
+
+
+def int_configs(seed):
+    out = []
+    for i, (Fd, Ts, L, shape) in enumerate(INT_FDTS_L):
+        out.append(dict(Fd=Fd, Ts=Ts, L=L, shape=shape, big=False, inttypes=True, index=5000 + i,
+                        rs_seed=61000 + 1000 * seed + i))
+    return out
+
+
 def events(cfg):
+    if cfg.get("inttypes"):
+        return int_events()
     ev = [("generate", n) for n in GEN_N]
     if cfg.get("big"):
         ev.append(("generate", GEN_BIG))
@@ -336,13 +363,14 @@ def build(cfg, hist):
     st.k = 1
     for ev in hist:
         kind, n = ev[0], int(ev[1])
+        arg = SIZE_TYPES[ev[2]](n) if len(ev) > 2 else n      # the size as the caller presents it
         st.k_before = st.k
         try:
             st.prev_samples = np.array(g.get_samples(), copy=True)
             if kind == "generate":
-                g.generate_more_samples(n)
+                g.generate_more_samples(arg)
             else:
-                g.skip_samples_for_next_generation(n)
+                g.skip_samples_for_next_generation(arg)
         except Exception as e:  # noqa
             st.err = (kind, e)
             return st
@@ -506,6 +534,10 @@ def _check_state(chk, cfg, hist, st, case=None):
                  observed=s.shape, expected=shp + (n,))
         return
     chk.outcome("generate_result", ("ok", decade(k0), n))
+    if cfg.get("inttypes"):
+        chk.outcome("size_type_x_position", (tuple(sorted(set(e[2] for e in hist if e[0] == "skip"))), hist[-1][2],
+                                             "beyond_2^32" if k0 >= 2 ** 32 else
+                                             ("beyond_2^31" if k0 >= 2 ** 31 else "below_2^31")))
     chk.outcome("position_decade", decade(k0))
     tol = value_tol(cfg, k0 + n)
     amp = math.sqrt(L)
@@ -524,9 +556,14 @@ def _check_state(chk, cfg, hist, st, case=None):
         chk.fail(("generate_more_samples", "magnitude_exceeds_sqrt_L"), case,
                  observed=float(np.abs(s).max()), expected="<= %r" % amp)
     if Fd == 0:
-        if not np.all(np.abs(s - st.s0) <= 1e-12):
+        # time-invariant: constant within the request, and equal to the sample the generator was obtained with
+        # (unless its phases were redrawn since: shape setter / object-changing invalid call)
+        same_process = (cfg.get("root") or ("ctor",))[0] != "shape" and not cfg.get("no_twins") \
+            and np.shape(st.s0) == shp + (1,)
+        if not np.all(np.abs(s - s[..., :1]) <= 1e-12) or \
+                (same_process and not np.all(np.abs(s - st.s0) <= 1e-12)):
             chk.fail(("generate_more_samples", "Fd=0_not_constant"), case,
-                     observed=s.ravel()[:3], expected=st.s0.ravel()[:3])
+                     observed=s.ravel()[:3], expected=(st.s0 if same_process else s[..., :1]).ravel()[:3])
     # ---- differential: identically seeded generator, stretch obtained directly ----
     one_max = DIFF_ONE_REQUEST_MAX_BLOCK if cfg.get("block") else DIFF_ONE_REQUEST_MAX
     if cfg.get("no_twins"):
@@ -600,13 +637,22 @@ LIFE_INVALID = (("generate", 2.5), ("generate", "3"), ("skip", None),
 LIFE_OUT_OF_DOMAIN = (("generate", 0), ("generate", -1), ("skip", -5))
 
 
+LIFE_FD0 = (0.0, 1e-3, 8, (2, 3))     # zero Doppler x shape reassignment after blocks of 1 / >= 2 samples
+
+
 def life_configs(seed, thorough):
     out = []
     pre_sets = ((), (("generate", 7),), (("skip", 10 ** 6),), (("generate", 3500),))
-    for Fd, Ts, L, shape in LIFE_FDTS_L:
+    for Fd, Ts, L, shape in LIFE_FDTS_L + (LIFE_FD0,):
         other = 3 if shape is None else None
-        roots = [("ctor",)] + [("similar", pre) for pre in pre_sets]
-        roots += [("shape", other, (("generate", 7),)), ("shape", other, (("skip", 10 ** 6),))]
+        # the shape is (re)assigned after a block of >= 2 samples / of 1 sample / a skip; to another shape and
+        # to the SAME shape (which redraws the phases as well)
+        shape_roots = [("shape", other, (("generate", 7),)), ("shape", other, (("skip", 10 ** 6),)),
+                       ("shape", other, (("generate", 1),)), ("shape", shape, (("generate", 7),))]
+        if Fd == 0:
+            roots = [("ctor",), ("similar", ())] + shape_roots + [("shape", shape, (("generate", 1),))]
+        else:
+            roots = [("ctor",)] + [("similar", pre) for pre in pre_sets] + shape_roots
         for root in roots:
             ks = 1 + sum(n for _, n in root[2]) if root[0] == "shape" else 1
             out.append(dict(Fd=Fd, Ts=Ts, L=L, shape=shape, big=False, life=True, root=root, k_start=ks))
@@ -680,8 +726,8 @@ def build_life(cfg, hist):
             continue
         valid = base in ("generate", "skip") and isinstance(n, int) and not isinstance(n, bool) and \
             (n >= 1 if base == "generate" else n >= 0)
-        other_before = _digest(other.g)
-        before = _digest(o.g)
+        other_before = _digest(other.g) if valid else None
+        before = _digest(o.g) if not valid else None
         o.k_before = o.k
         o.prev_samples = np.array(o.g.get_samples(), copy=True)
         try:
@@ -715,7 +761,9 @@ def build_life(cfg, hist):
             changed = _digest(o.g) != before
             st.note = (what, "accepted" if raised is None else "raised:" + type(raised).__name__,
                        "object_changed" if changed else "object_unchanged")
-            if st.after_invalid is None:
+            if st.after_invalid is None and (changed or raised is None):
+                # only a call that was accepted or changed the object can be the cause of what follows; after a
+                # call that raised and left the object field-for-field unchanged the plain signatures apply
                 st.after_invalid = what
             # ... but the generator must still be a coherent instance: re-read position, shape and phases
             # from what it reports and go on judging every later VALID request from there.
@@ -844,8 +892,13 @@ def run_life(chk, cfg, depth):
             return []          # an invalid call changed the object and its position cannot be re-read
         if len(hist) + 1 >= depth:
             # the last event of a history is only useful when it observes something
-            return [e for e in evs if e[0] in ("generate", "b_generate") and isinstance(e[1], int) and e[1] >= 1]
-        return evs
+            return [("generate", 7), ("b_generate", 3)]
+        ok = evs
+        if any(e in LIFE_INVALID or e in LIFE_OUT_OF_DOMAIN for e in hist):
+            ok = [e for e in ok if e in LIFE_VALID]          # one invalid call per history (budget)
+        if hist:
+            ok = [e for e in ok if e[0] != "scribble" or hist[-1][0] in ("generate", "b_generate")]
+        return ok
 
     def invariant(hist, st):
         with guarded(chk, ("jakes", "lifecycle"), life_case(cfg, hist)):
@@ -1162,6 +1215,9 @@ def run_config(chk, cfg, depth):
     def enabled(hist, st):
         if st.err is not None:
             return []
+        if cfg.get("inttypes"):
+            # the last event of a history observes: generates only
+            return [e for e in evs if e[0] == "generate"] if len(hist) + 1 >= depth else evs
         return block_enabled(cfg, hist) if cfg.get("block") else evs
 
     def invariant(hist, st):
@@ -1187,6 +1243,8 @@ def plan(chk):
     for c in sorted(block_configs(chk.seed, thorough),
                     key=lambda c: -(c["L"] * (3 if c["shape"] else 4))):
         jobs.append((c, 3))
+    for c in int_configs(chk.seed):
+        jobs.append((c, 4 if thorough else 3))
     lc = large_cases(chk.seed, thorough)
     nl = 16 if thorough else 4
     for j in range(nl):
@@ -1215,6 +1273,14 @@ def main(chk: Check):
     chk.assume("a state in which a request raised is terminal: the position is undefined afterwards")
     jobs = plan(chk)
     chk.extra["configurations"] = len(jobs)
+    chk.extra["pairwise_axes"] = {
+        "request size type x position": "py/int32/int64/uint32 sizes x positions below/across/beyond 2^31 and 2^32 "
+                                        "(inttypes part, every (skip type, generate type) pair)",
+        "Fd x lifecycle root": "Fd in {0, 5, 100} x {constructor, similar generator, shape reassigned after a block "
+                               "of 1 / of 7 samples / a skip, to another and to the same shape}",
+        "request size x shape/L": "large and block-threshold sizes x shape {None, array} x L (block / large parts)",
+        "invalid call x later valid request": "lifecycle part depth 3",
+        "two live generators x request kind": "lifecycle part (b_generate / b_skip)"}
     chk.extra["depth"] = sorted(set(d for _, d in jobs))
     chk.extra["tolerances"] = {"REL_T": REL_T, "ABS_T_samples": ABS_T, "ABS_V": ABS_V,
                                "one_request_differential_max_position": DIFF_ONE_REQUEST_MAX}
@@ -1238,6 +1304,7 @@ def main(chk: Check):
         chk.require_outcomes("function_call", 12)
         chk.require_outcomes("rayleigh", 6)
         chk.require_outcomes("large_request", 30)
+        chk.require_outcomes("size_type_x_position", 12)
 
 
 def replay(case, chk: Check):
@@ -1269,6 +1336,6 @@ def replay(case, chk: Check):
                index=-1)
     if isinstance(cfg["shape"], list):
         cfg["shape"] = tuple(cfg["shape"])
-    hist = tuple((h[0], int(h[1])) for h in case["history"])
+    hist = tuple((h[0], int(h[1])) + tuple(h[2:]) for h in case["history"])
     with guarded(chk, ("jakes",), case):
         check_state(chk, cfg, hist, build(cfg, hist))
